@@ -95,9 +95,7 @@ def regions(desc, value, ctx=None):
         local = t.split("}", 1)[1] if t.startswith("{") else t
         if not local or any(ch.isspace() or ch == ":" for ch in local) or local.startswith("{"):
             out.append(TYPE_NAME)
-        if t == var["qname"]:
-            out.append("C01-derived-element-named-as-type")
-            return
+        _ = var  # (xsi:type is written even when the element is named like the subclass: repair c01g-02)
         mc = meta_for(c, pns)
         found = find_subclass(c, t) if mc["target_qname"] != t else None
         if found != cls:
@@ -166,12 +164,8 @@ def regions(desc, value, ctx=None):
         cn = cls_nillable(v["obj"])
         meta = meta_for(v["obj"], pns) if ctx else None
         child_pns = _uri(meta["qname"]) if meta else None
-        if typed and has_map(v["obj"]):
-            out.append("C01-derived-class-attributes-capture-type")
-        if nl and not cn and not has_content(c, v):
-            out.append("C01-nillable-empty-object")
-        if (nl or cn) and has_map(v["obj"]) and not has_content(c, v):
-            out.append("C01-nillable-class-attributes-capture-nil")
+        _ = typed  # (an Attributes map no longer captures xsi:type: repair c01g-07)
+        _ = nl  # (the element of an object under a nillable field is not xsi:nil any more: repair c01g-03)
         for (_, x), f in zip(v["fields"], all_fields(v["obj"])):
             md = f.get("metadata", {})
             typ = _ftype(f)
@@ -196,9 +190,8 @@ def regions(desc, value, ctx=None):
                         derived(base["cls"], y["obj"], var, child_pns)
                     walk(y, nillable, child_pns, sub)
                 elif isinstance(y, dict) and "str" in y and y["str"] == "":
-                    if nillable:
-                        out.append("C01-nillable-empty-str")
-                    elif not in_list and dflt not in (None, "", "<required>"):
+                    # (under a nillable field `<a/>` without xsi:nil is "" now: repair c01g-06)
+                    if not in_list and dflt not in (None, "", "<required>"):
                         out.append("C01-empty-str-element-default")
 
             if f.get("init") is False and x != G_val(dflt):
@@ -218,9 +211,7 @@ def regions(desc, value, ctx=None):
                         out.append("C01-attr-datatype-clark-name")
             elif typ == "Text":
                 if tokens:
-                    tok_check(x["list"])
-                    if (nl or cn) and not x["list"]:
-                        out.append("C01-nillable-class-empty-tokens-text")
+                    tok_check(x["list"])  # (an empty token text of an xsi:nil element stays []: repair c01g-08)
                 elif x is None:
                     if not (nl or cn) and dflt is not None:
                         out.append(TYPING[1])
@@ -270,19 +261,16 @@ def _seq_ok(vs):
 
 
 def ctx_expected(ctx, ns_agree):
-    """`ctxOK FEAT` on exported universes of WIDE_FEATURES: everything but the namespace chains of
-    C01-ns-chain, nillable lists of token lists (C01-nillable-token-lists-empty) and token-list or
-    wrapped vars inside a sequence group (C01-tokens-in-sequence-typeerror)"""
+    """`ctxOK FEAT` on exported universes of WIDE_FEATURES: everything but a class with a text var and
+    child elements, and token-list or wrapped vars inside a sequence group (`seqOK`)"""
     for ci in ctx["classes"]:
         for _, m in ci["metas"]:
             vs = [v for _, vv in m["elements"] for v in vv]
             if m["text"] and vs:
                 return False  # a subclass adds child elements to a class with a text var (not in the fragments)
-            if any(v["tokens"] and v["list_element"] and v["nillable"] for v in vs):
-                return False
             if not _seq_ok(vs):
                 return False
-    return ns_agree(ctx)
+    return True  # (no condition on the namespaces any more: repair c01g-01)
 
 
 def spoil(rng, value):
@@ -480,15 +468,12 @@ def replay(desc, value, expect):
     return all(expect(x) for x in seen), f"{xml.split('?>')[-1].strip()} -> {sorted(set(seen))}"
 
 
+# repaired by repo-patches/c01g-01 … c01g-08 (listed as `fixed: … PENDING-c01g-NN` in known_findings.json):
+# nillable-empty-object, nillable-empty-str, nillable-token-lists-empty, nillable-class-empty-tokens-text,
+# tokens-in-sequence-typeerror, nillable-class-attributes-capture-nil, derived-element-named-as-type,
+# derived-class-attributes-capture-type (and C01-ns-chain in props/c01.py); their corpus cases stay as
+# regression inputs of the correspondence and of the oracle
 FINDINGS = {
-    "C01-nillable-empty-object": lambda: replay(*EMPTY_OBJECT, lambda x: x == json.dumps({"obj": "Root", "fields": [["c", None]]})),
-    "C01-nillable-empty-str": lambda: replay(*EMPTY_STR, lambda x: x == json.dumps({"obj": "Root", "fields": [["a", None]]})),
-    "C01-nillable-token-lists-empty": lambda: replay(*TOKEN_LISTS, lambda x: '{"list": [{"list": []}]}' in x),
-    "C01-nillable-class-empty-tokens-text": lambda: replay(*EMPTY_TOKENS_TEXT, lambda x: '["v", null]' in x),
-    "C01-tokens-in-sequence-typeerror": lambda: replay(*TOKENS_IN_SEQUENCE, lambda x: x == "serialize:TypeError"),
-    "C01-nillable-class-attributes-capture-nil": lambda: replay(*NIL_IN_ATTRIBUTES, lambda x: "XMLSchema-instance}nil" in x),
     "C01-attributes-key-declared": lambda: replay(*MAP_KEY_DECLARED, lambda x: '["m", {"attrs": []}], ["k", {"int": 5}]' in x),
-    "C01-derived-element-named-as-type": lambda: replay(*DERIVED_NAMED, lambda x: x == "ParserError"),
-    "C01-derived-class-attributes-capture-type": lambda: replay(*DERIVED_MAP, lambda x: "XMLSchema-instance}type" in x),
     "C01-attributes-value-prefix-rewritten": lambda: replay(*MAP_VALUE_PREFIX, lambda x: '"{urn:q}bar"' in x),
 }
